@@ -336,9 +336,10 @@ def load_subs_roundtrip(fname, max_param, out_path):
     for use_sympy in (True, False):
         subs = simp.load_subs(fname, max_param, use_sympy=use_sympy)
         if MPI.COMM_WORLD.Get_rank() == 0:
-            rows, forms = [], []
+            rows, forms, keysyms = [], [], []
             for row in subs:
                 r = []
+                keysyms.append([[sorted(str(v) for v in getattr(k, "free_symbols", [])) for k in el] if isinstance(el, dict) else None for el in row])
                 forms.append(["nan" if isinstance(el, float) else "dict" if isinstance(el, dict) else "str" if isinstance(el, str) else type(el).__name__ for el in row])
                 for el in row:
                     if isinstance(el, float):
@@ -355,6 +356,7 @@ def load_subs_roundtrip(fname, max_param, out_path):
                 rows.append(r)
             res["sympy" if use_sympy else "str"] = rows
             res[("sympy" if use_sympy else "str") + "_form"] = forms
+            res[("sympy" if use_sympy else "str") + "_keysyms"] = keysyms
     if MPI.COMM_WORLD.Get_rank() == 0:
         with open(out_path, "w") as f:
             json.dump(res, f)
